@@ -153,6 +153,8 @@ fixed("C08", "b2f2ffd", "sample PCov-CUR warm start kept using the X and y array
 
 fixed("C03", "71a1f76", "pcovr_covariance compared the round-off eigenvalues of a rank-deficient X^T X (eps x largest eigenvalue) with the absolute rcond 1e-12: for data of scale >~ 10 they entered (X^T X)^(-1/2) with weights ~1e5, the feature-space projector got large components outside the row space of X and transform / predict of NEW samples differed from the sample-space route by more than the data scale (6x15 X of scale 40: 146 against 96)")
 
+fixed("C07", "cf1eb8d", "CUR / PCov-CUR handed the absolute tolerance 1e-12 to X_orthogonalizer: the round-off residual (eps x norm) of an item that is an exact copy of selected items was normalised and projected out as a noise direction for data of scale >~ 1e4; importance scores off by 0.015 (feature CUR, k=2, recompute_every=2, 11x20 table of scale 8192 with a duplicated column)")
+
 # ------------------------------------------------------------------ C15
 fixed("C15", "d67ecc1", "periodic_pairwise_euclidean_distances(list-of-lists, cell_length=...) raised AttributeError: the dimension check read X.shape before the documented array-like input was validated")
 
